@@ -15,12 +15,13 @@ EXPLANATION = (
     "finite domain VR class x value shape (16 VRs x 9 shapes: None, '', plain, with '*', with '?', with "
     "'-', leading '-', UID, UID list) and the matching function reached must be the one PS3.4 C.2.2.2 "
     "assigns (zero-length: universal; multi-valued UI: list of UID; text VR with a wildcard: wild card; "
-    "DA/TM/DT with '-': range; otherwise single value). (wildcard) in _search_wildcard the replacement "
-    "chain applied to the key before each sink is extracted per path: a LIKE sink needs the escape "
-    "character, '%' and '_' escaped before '*'->'%' and '?'->'_', the escape= argument, and may only "
-    "serve PN (SQLite LIKE is case-insensitive); a GLOB sink needs '[' neutralised and no other "
-    "character translated. (operators) single value uses ==, UID list uses in_ on the element's values, "
-    "range uses inclusive >= / <= on the halves of a split on '-'. (hierarchy / all-keys / stored-form) "
+    "DA/TM/DT with '-': range; otherwise single value). (wildcard / operators) build_query and "
+    "the _search_* functions are evaluated (sa/minipy.py against the recording stand-ins of sa/qr_eval.py) "
+    "for each of the 12 supported keys and every value shape; the recorded condition must be == on the key's "
+    "column for a single value, in_ of all values for a UID list, inclusive >= / <= on the given ends of a "
+    "range, and for a wildcard key the pattern handed to the database is parsed (escape character included) "
+    "into literal / any-sequence / any-one tokens and must equal the key's own tokens - LIKE (case-insensitive "
+    "in SQLite) only for PN, GLOB (case-sensitive) otherwise. (hierarchy / all-keys / stored-form) "
     "search(), _search_qr, _check_identifier, build_query and add_instance are evaluated by the checker's own "
     "interpreter against recording stand-ins (session, query, columns, data set - sa/qr_eval.py; nothing of "
     "sqlalchemy or pydicom runs) for both roots, the three operations, every query level (plus an unknown "
@@ -182,36 +183,6 @@ class Interp:
                 raise AnalysisError(f"build_query: statement not modelled: {norm(s)[:50]}")
 
 
-def replace_chain(fn, var: str, sink_stmt, branch_conds):
-    """the ordered list of (old, new) literal replacements applied to `var` on the straight-line
-    path to `sink_stmt` (statements lexically before it whose enclosing ifs are compatible)"""
-    out = []
-    for s in sorted([x for x in walk_no_nested(fn) if isinstance(x, ast.Assign)], key=lambda x: (x.lineno, x.col_offset)):
-        if norm(s.targets[0]) != var or s.lineno >= sink_stmt.lineno:
-            continue
-        # must be on the path: every enclosing If of s also encloses the sink, in the same branch
-        p, ch, on_path = parent(s), s, True
-        while p is not None and p is not fn:
-            if isinstance(p, ast.If):
-                in_body = any(x is ch for x in p.body)
-                sink_in = any(x is sink_stmt for st in (p.body if in_body else p.orelse) for x in ast.walk(st))
-                if not sink_in:
-                    on_path = False
-            ch, p = p, parent(p)
-        if not on_path:
-            continue
-        v = s.value
-        chain = []
-        while isinstance(v, ast.Call) and isinstance(v.func, ast.Attribute) and v.func.attr == "replace" and len(v.args) == 2 and all(isinstance(a, ast.Constant) and isinstance(a.value, str) for a in v.args):
-            chain.append((v.args[0].value, v.args[1].value))
-            v = v.func.value
-        if chain and norm(v) == var:
-            out.extend(reversed(chain))
-        elif isinstance(v, ast.Call) and isinstance(v.func, ast.Attribute) and v.func.attr == "replace":
-            out.append(("?", "?"))  # a replace the analysis cannot read
-    return out
-
-
 def _sample(vr: str, kw: str):
     from ..qr_eval import ISValue, PNValue
 
@@ -239,6 +210,129 @@ def _form(v):
     if isinstance(v, list):
         return ("list", tuple(_form(x) for x in v))
     return ("other", repr(v))
+
+
+ANYSEQ, ANYONE = ("*",), ("?",)
+
+
+def _tokens_key(p: str):
+    return [ANYSEQ if c == "*" else ANYONE if c == "?" else c for c in p]
+
+
+def _tokens_like(p: str, esc: str | None):
+    out, i = [], 0
+    while i < len(p):
+        c = p[i]
+        if esc and c == esc and i + 1 < len(p):
+            out.append(p[i + 1])
+            i += 2
+            continue
+        out.append(ANYSEQ if c == "%" else ANYONE if c == "_" else c)
+        i += 1
+    return out
+
+
+def _tokens_glob(p: str):
+    out, i = [], 0
+    while i < len(p):
+        c = p[i]
+        if c == "[":
+            j = p.find("]", i + 2)  # SQLite GLOB: a ']' right after '[' is a member of the class
+            if j < 0:
+                out.append(("class", p[i:]))
+                break
+            body = p[i + 1:j]
+            out.append(body if len(body) == 1 and body not in "^" else ("class", body))
+            i = j + 1
+            continue
+        out.append(ANYSEQ if c == "*" else ANYONE if c == "?" else c)
+        i += 1
+    return out
+
+
+def check_matching_evaluated(repo: Repo, rep: Report) -> None:
+    """build_query() and the _search_* functions it reaches, evaluated (sa/minipy.py, sa/qr_eval.py) for every
+    supported key with the VR the data dictionary gives it and every value shape: the recorded condition - column,
+    operator, value - must be the one PS3.4 C.2.2.2 prescribes. Patterns are compared by meaning: the LIKE /
+    GLOB pattern handed to the database is parsed (with its escape character) into literals, any-sequence and
+    any-one tokens and must equal the key's own tokens ('*', '?', everything else literal). LIKE is
+    case-insensitive in SQLite (person names only), GLOB case-sensitive (everything else)."""
+    from ..minipy import Unsupported
+    from ..qr_eval import ISValue, PNValue, QREval
+
+    rep.rule("wildcard", "only '*' and '?' act as wildcards (the pattern given to the database means what the key means); case-insensitive for PN only")
+    rep.rule("operators", "single value ==, UID list in_(values), range inclusive on both given ends - on the key's own column")
+    db = repo.mod("apps.qrscp.db")
+    fq = "apps.qrscp.db.build_query"
+    pats = ["A*C", "A?C", "*", "Ab%c*", "a_b?", "a[b*", "a]b?", "a\\b*", "%_[\\*?x", "*^Jo?n"]
+    try:
+        q = QREval(repo)
+        tr = q.it.globals["_TRANSLATION"]
+        n = 0
+        bad_w = bad_o = 0
+        for kw, col in tr.items():
+            vr = q.vr_of(kw)
+            cases = []  # (value, rule, expected description, checker)
+            plain = _sample(vr, kw)
+            cases.append((plain, "operators", "single"))
+            if vr == "UI":
+                cases.append(([plain, plain + ".1", plain + ".2"], "operators", "list"))
+            if vr in DATE_VR:
+                cases += [("20200101-20211231", "operators", "range"), ("-20211231", "operators", "range"), ("20200101-", "operators", "range")]
+            if vr in TEXT_VR:
+                for p_ in pats:
+                    cases.append((PNValue(p_) if vr == "PN" else p_, "wildcard", "pattern"))
+            for val, rule, kind in cases:
+                n += 1
+                k_, out = q.conds_for({kw: val})
+                text = getattr(val, "_minipy_str", val)
+                if k_ != "conds":
+                    ok, why = False, f"raises {out}"
+                elif kind == "single":
+                    want = text if not isinstance(val, int) else int(val)
+                    ok = len(out) == 1 and out[0].col == col and out[0].op == "==" and _form(out[0].value) == _form(want)
+                    why = f"conditions {out}"
+                elif kind == "list":
+                    ok = len(out) == 1 and out[0].col == col and out[0].op == "in" and list(out[0].value) == list(val)
+                    why = f"conditions {out}"
+                elif kind == "range":
+                    lo, hi = text.split("-")
+                    want = sorted(([(">=", lo)] if lo else []) + ([("<=", hi)] if hi else []))
+                    ok = sorted((c.op, c.value) for c in out) == want and all(c.col == col for c in out)
+                    why = f"conditions {out}"
+                else:
+                    want_t = _tokens_key(text)
+                    ok, why = False, f"conditions {out}"
+                    if len(out) == 1 and out[0].col == col and isinstance(out[0].value, str):
+                        c = out[0]
+                        if c.op in ("like", "ilike"):
+                            esc = (c.extra or {}).get("escape")
+                            got_t = _tokens_like(c.value, esc if isinstance(esc, str) and len(esc) == 1 else None)
+                            ok = got_t == want_t and vr == "PN" and c.op == "like"
+                            why = f"LIKE {c.value!r}{' ESCAPE ' + repr(esc) if esc else ' (no escape character)'}" + ("" if vr == "PN" else " - LIKE is case-insensitive, only person names may be matched that way")
+                        elif c.op == "GLOB":
+                            got_t = _tokens_glob(c.value)
+                            ok = got_t == want_t and vr != "PN"
+                            why = f"GLOB {c.value!r}" + (" - GLOB is case-sensitive, person names are matched case-insensitively" if vr == "PN" else "")
+                        else:
+                            why = f"{c.op}({c.value!r}) - not a pattern match whose meaning is known (SQLite LIKE / GLOB)"
+                if ok:
+                    continue
+                if rule == "wildcard":
+                    bad_w += 1
+                    if bad_w <= 4:
+                        rep.fail("wildcard", "apps.qrscp.db._search_wildcard", f"{kw} ({vr}) = {text!r} -> {why}", f"the key {text!r} means: '*' any sequence, '?' any one character, every other character itself (PS3.4 C.2.2.2.4); the pattern handed to the database does not mean that (a '%', '_', '[' or the escape character of the key acts as a wildcard, a wildcard is not translated, or the case rule is wrong)", mod=db, node=db.funcs.get("_search_wildcard"))
+                else:
+                    bad_o += 1
+                    if bad_o <= 4:
+                        rep.fail("operators", fq, f"{kw} ({vr}) = {text!r} -> {why}", "single value matching compares the key's column for equality, a UID list for membership of all its values, a range inclusively on the ends that are given (PS3.4 C.2.2.2.1, .2, .5)", mod=db, node=db.funcs.get("build_query"))
+        if not bad_w:
+            rep.ok("wildcard", f"{fq} :: text keys x {len(pats)} patterns", "pattern means what the key means; LIKE for PN only, GLOB otherwise")
+        if not bad_o:
+            rep.ok("operators", f"{fq} :: {len(tr)} keys", "==, in_, inclusive range on the key's column")
+        rep.floor("(key, value shape) points evaluated through build_query", n, 60)
+    except Unsupported as exc:
+        rep.defer(f"apps.qrscp.db: build_query could not be evaluated ({exc})")
 
 
 def check_search_evaluated(repo: Repo, rep: Report, tier: str) -> None:
@@ -352,9 +446,6 @@ def check_search_evaluated(repo: Repo, rep: Report, tier: str) -> None:
 
 def run(repo: Repo, rep: Report, tier: str) -> None:
     rep.rule("dispatch", "build_query reaches the PS3.4 C.2.2.2 matching function for every (VR class, value shape)")
-    rep.rule("wildcard", "only '*' and '?' act as wildcards; matching is case-sensitive except for PN")
-    rep.rule("operators", "single value ==, UID list in_(values), range inclusive on both halves")
-    rep.rule("hierarchy", "_check_identifier rejects exactly on the five invalid-hierarchy conditions")
     rep.rule("per-entity", "C-FIND answers once per matching entity of the query level")
     db = repo.mod("apps.qrscp.db")
     bq = db.funcs.get("build_query")
@@ -437,83 +528,8 @@ def run(repo: Repo, rep: Report, tier: str) -> None:
     rep.floor("dispatch points", n, 100)
     rep.extra["exhaustive"] = False
 
-    # ---- wildcard sinks -----------------------------------------------------------------
-    sw = db.funcs.get("_search_wildcard")
-    rep.need(sw is not None, "apps.qrscp.db._search_wildcard vanished")
-    fqw = "apps.qrscp.db._search_wildcard"
-    sinks = []
-    # the column object(s): names bound from getattr(Instance, ..)
-    cols = {norm(s_.targets[0]) for s_ in walk_no_nested(sw) if isinstance(s_, ast.Assign) and isinstance(s_.value, ast.Call) and dotted(s_.value.func) == "getattr" and s_.value.args and norm(s_.value.args[0]) == "Instance"}
-    for c in walk_no_nested(sw):
-        if isinstance(c, ast.Call) and isinstance(c.func, ast.Attribute) and c.func.attr in ("like", "ilike", "contains", "startswith", "endswith", "regexp_match", "match") and norm(c.func.value) in cols:
-            sinks.append((c.func.attr, c, c.args[0] if c.args else None))
-        if isinstance(c, ast.Call) and isinstance(c.func, ast.Call) and isinstance(c.func.func, ast.Attribute) and c.func.func.attr == "op" and norm(c.func.func.value) in cols and c.func.args and isinstance(c.func.args[0], ast.Constant):
-            sinks.append((str(c.func.args[0].value).upper(), c, c.args[0] if c.args else None))
-    rep.floor("pattern-matching sinks in _search_wildcard", len(sinks), 1)
-    for kind, call, arg in sinks:
-        st = enclosing(call, (ast.stmt,))
-        # branch conditions
-        pn_only = False
-        g = enclosing(call, (ast.If,))
-        while g is not None and enclosing(g, (ast.FunctionDef,)) is sw:
-            in_body = any(x is call for s_ in g.body for x in ast.walk(s_))
-            if norm(g.test) in ("elem.VR == 'PN'", "vr == 'PN'") and in_body:
-                pn_only = True
-            g = enclosing(g, (ast.If,))
-        non_pn_only = False
-        # a sink after `if elem.VR == 'PN': ... return` serves the other VRs only
-        for i in [i for i in body_nodoc(sw) if isinstance(i, ast.If) and norm(i.test) in ("elem.VR == 'PN'", "vr == 'PN'") and i.lineno < call.lineno and isinstance(i.body[-1], ast.Return) and not any(x is call for x in ast.walk(i))]:
-            non_pn_only = True
-        var = norm(arg) if arg is not None else "?"
-        chain = replace_chain(sw, var, st, None)
-        if kind in ("like", "ilike"):
-            kw = {k.arg: k.value for k in call.keywords}
-            esc = kw.get("escape")
-            escc = esc.value if isinstance(esc, ast.Constant) else None
-            rep.check(escc is not None and len(escc) == 1, "wildcard", fqw, st, "LIKE without an escape= argument: '%' and '_' in the key cannot be taken literally, so characters other than '*' and '?' act as wildcards", mod=db, node=call)
-            if escc:
-                def idx(pair):
-                    return chain.index(pair) if pair in chain else None
-                i_pct, i_us, i_star, i_q = idx(("%", escc + "%")), idx(("_", escc + "_")), idx(("*", "%")), idx(("?", "_"))
-                i_esc = idx((escc, escc + escc))
-                ok = None not in (i_pct, i_us, i_star, i_q, i_esc) and i_esc < min(i_pct, i_us) and max(i_pct, i_us) < min(i_star, i_q)
-                rep.check(ok, "wildcard", fqw, f"replacements before LIKE: {chain}", "before LIKE the key must have the escape character, '%' and '_' escaped, and only then '*' -> '%' and '?' -> '_' (in that order); otherwise literal '%' / '_' in a key match like wildcards", mod=db, node=st)
-                extra = [p for p in chain if p not in ((escc, escc + escc), ("%", escc + "%"), ("_", escc + "_"), ("*", "%"), ("?", "_"))]
-                rep.check(not extra, "wildcard", fqw, f"other replacements: {extra}", "a character other than '*' and '?' is translated", mod=db, node=st)
-            rep.check(pn_only and kind == "like", "wildcard", fqw, f"{kind}() serves {'PN only' if pn_only else 'non-PN VRs too'}", "SQLite's LIKE is case-insensitive for ASCII: it may only serve person names; every other VR must be matched case-sensitively (PS3.4 C.2.2.2.4)", mod=db, node=call)
-        elif kind == "GLOB":
-            ok = ("[", "[[]") in chain
-            extra = [p for p in chain if p != ("[", "[[]")]
-            rep.check(ok and not extra, "wildcard", fqw, f"replacements before GLOB: {chain}", "GLOB has '*' and '?' as its own wildcards and is case-sensitive; the only other special character, '[', must be neutralised ('[[]') and nothing else translated", mod=db, node=st)
-            rep.check(non_pn_only or not pn_only, "wildcard", fqw, "GLOB serves the case-sensitive VRs", "GLOB is case-sensitive", mod=db, node=call)
-        elif kind in ("startswith", "endswith", "contains"):
-            kw_ = {k.arg: k.value for k in call.keywords}
-            auto = isinstance(kw_.get("autoescape"), ast.Constant) and kw_["autoescape"].value is True
-            rep.check(auto and pn_only, "wildcard", fqw, st, f"Column.{kind}() compiles to LIKE: in SQLite it is case-insensitive (only PN may be) and, without autoescape=True, '%' and '_' in the key act as wildcards", mod=db, node=call)
-        else:
-            rep.defer(f"{fqw}: pattern sink {kind} not modelled")
-    # empty key -> '*'
-    # ---- operators ------------------------------------------------------------------------
-    for name, want in (("_search_single_value", ["attr == value"]), ("_search_uid_list", ["attr == elem.value", "attr.in_(elem.value)"])):
-        fn = db.funcs.get(name)
-        rep.need(fn is not None, f"apps.qrscp.db.{name} vanished")
-        flt = [norm(c.args[0]) for c in walk_no_nested(fn) if isinstance(c, ast.Call) and isinstance(c.func, ast.Attribute) and c.func.attr == "filter" and c.args]
-        rep.check(sorted(flt) == sorted(want), "operators", f"apps.qrscp.db.{name}", f"filters {flt}", f"{name} must filter with {want}", mod=db, node=fn)
-        ad = [s for s in walk_no_nested(fn) if isinstance(s, ast.Assign) and norm(s.targets[0]) == "attr"]
-        rep.check(len(ad) == 1 and norm(ad[0].value) == "getattr(Instance, _TRANSLATION[elem.keyword])", "operators", f"apps.qrscp.db.{name}", ad[0] if ad else "attr = ..", "the column searched must be the one the key's keyword translates to", mod=db, node=fn)
-    sr = db.funcs.get("_search_range")
-    rep.need(sr is not None, "apps.qrscp.db._search_range vanished")
-    sp = [s for s in walk_no_nested(sr) if isinstance(s, ast.Assign) and isinstance(s.targets[0], ast.Tuple) and norm(s.value) == "elem.value.split('-')"]
-    ok = len(sp) == 1 and [norm(e) for e in sp[0].targets[0].elts] == ["start", "end"]
-    rep.check(ok, "operators", "apps.qrscp.db._search_range", sp[0] if sp else "start, end = elem.value.split('-')", "the range key is <start>-<end>", mod=db, node=sr)
-    rets = {}
-    for i in [i for i in walk_no_nested(sr) if isinstance(i, ast.If)]:
-        for r in [r for r in i.body if isinstance(r, ast.Return)]:
-            c = r.value
-            if isinstance(c, ast.Call) and isinstance(c.func, ast.Attribute) and c.func.attr == "filter":
-                rets[norm(i.test)] = sorted(norm(a) for a in c.args)
-    want_r = {"start and end": ["attr <= end", "attr >= start"], "start and (not end)": ["attr >= start"], "not start and end": ["attr <= end"]}
-    rep.check(rets == want_r, "operators", "apps.qrscp.db._search_range", f"{rets}", "range matching is inclusive on both ends; an open end leaves that side unbounded", mod=db, node=sr)
+    # ---- wildcard / operators: build_query evaluated per key and value shape -----------------------------
+    check_matching_evaluated(repo, rep)
 
     # ---- hierarchy / all keys / stored form: the db functions evaluated against recording stand-ins ------------
     check_search_evaluated(repo, rep, tier)
